@@ -23,6 +23,10 @@ type Request struct {
 	Scenario *Scenario `json:"scenario,omitempty"`
 	// return the generated scenario with the result
 	WantScenario bool `json:"want_scenario,omitempty"`
+	// GenOnly: generate the scenario and return it without executing it. Engines whose subject has
+	// process-wide lazily initialised state execute every scenario in a process that has done nothing
+	// else before - not even generating the scenario, which renders documents with the real serializers
+	GenOnly bool `json:"gen_only,omitempty"`
 }
 
 type Response struct {
@@ -175,6 +179,9 @@ func Serve(req *Request) *Response {
 			return &Response{Idx: req.Idx, Result: &Result{Harness: err.Error()}}
 		}
 		sc = e.Generate(req.Property, req.VerifSeed, req.Tier, req.Idx)
+		if req.GenOnly {
+			return &Response{Idx: req.Idx, Result: &Result{Run: sc.Run}, Scenario: sc}
+		}
 	}
 	e := EngineByName(sc.Engine)
 	if e == nil {
